@@ -6,6 +6,7 @@ NAMES="$@"
 [ -z "$NAMES" ] && NAMES=$(ls /verif/seeded)
 for n in $NAMES; do
   prop=${n%%-*}
+  if grep -q '"neutralised"' /verif/seeded/$n/meta.json; then echo "$n NEUTRALISED (see meta.json)"; continue; fi
   out=$(NOREBUILD=1 /verif/tools/try_mut.sh $n $BUDGET $prop 2>&1)
   if echo "$out" | grep -q "^VIOLATION property=$prop"; then
     echo "$n CAUGHT $(echo "$out" | grep -m1 clause= | cut -c1-120)"
